@@ -50,7 +50,7 @@ META = {
 }
 
 CASES = {'quick': 1600, 'thorough': 100000}
-SECONDS = {'quick': 60, 'thorough': 600}
+SECONDS = {'quick': 300, 'thorough': 600}
 CPU_BUDGET_S = 6.0
 
 
